@@ -4,14 +4,15 @@ import TeleportModel.Driver.Loop
 namespace TM.Driver.C12
 open TM TM.Registry
 
-/-- the driver's hash: the preimage itself (`addr|denomhex`); the harness prints every raw store id as the
-preimage it recomputes with tmhash over the universe of addresses and denominations. -/
-def H (a : Addr) (d : Denom) : String := a ++ "|" ++ d
+/-- the driver's hash: the preimage itself (`address string as stored|denomhex`); the harness prints every raw store id as
+the preimage it recomputes with tmhash over the universe of address spellings and denominations. -/
+def H (a : String) (d : Denom) : String := a ++ "|" ++ d
 
 structure St where
   cur : Reg String := {}
   stack : List (Reg String) := []
   fixed : Bool := true
+  genStrict : Bool := false      -- which GenesisState.Validate the tree under test has (probed by the harness)
 
 def fresh : St := {}
 
@@ -20,7 +21,7 @@ def sortStrs (l : List String) : List String := l.mergeSort (fun a b => !(b < a)
 def listOr (l : List String) (sep : String) : String := if l.isEmpty then "-" else joinWith sep l
 
 def renderPair (e : String × Pair) : String :=
-  e.1 ++ ">" ++ e.2.addr ++ ">" ++ listOr e.2.denoms "," ++ ">" ++ (if e.2.enabled then "1" else "0") ++ ">" ++ toString e.2.owner
+  e.1 ++ ">" ++ e.2.addrStr ++ ">" ++ listOr e.2.denoms "," ++ ">" ++ (if e.2.enabled then "1" else "0") ++ ">" ++ toString e.2.owner
 
 def renderMeta (m : Meta) : String :=
   m.base ++ ">" ++ m.name ++ ">" ++ m.symbol ++ ">" ++ m.display ++ ">" ++ m.desc ++ ">" ++
@@ -55,35 +56,41 @@ def parseList (s : String) : List String := if s = "-" then [] else s.splitOn ",
 
 def parsePair (s : String) : Option Pair :=
   match s.splitOn ">" with
-  | [a, ds, en, ow] => ow.toNat?.map (fun o => { addr := a, denoms := parseList ds, enabled := bit en, owner := o })
+  | [a, ds, en, ow] => ow.toNat?.map (fun o => { addrStr := a, denoms := parseList ds, enabled := bit en, owner := o })
   | _ => none
 
 def parseAction : List String → Option Action
   | ["params", b] => some (.setParams (bit b))
   | "bankmeta" :: rest => (parseMeta rest).map .bankMeta
-  | "regcoin" :: vb :: hs :: ev :: dk :: a :: rest => (parseMeta rest).map (.registerCoin (bit vb) (bit hs) (bit ev) (bit dk) a)
+  | "regcoin" :: vb :: hs :: ev :: dk :: a :: as :: rest =>
+    (parseMeta rest).map (.registerCoin (bit vb) (bit hs) (bit ev) (bit dk) a as)
   | "addcoin" :: vb :: hs :: ev :: c :: rest => (parseMeta rest).map (.addCoin (bit vb) (bit hs) (bit ev) c)
-  | ["regerc20", vb, a, qok, n, s, dec, san, den, desc, mv] =>
-    (parseQ qok n s dec).map (fun q => .registerERC20 (bit vb) a q san den desc (bit mv))
+  | ["regerc20", vb, a, as, qok, n, s, dec, san, den, desc, mv] =>
+    (parseQ qok n s dec).map (fun q => .registerERC20 (bit vb) a as q san den desc (bit mv))
   | ["toggle", vb, t] => some (.toggle (bit vb) t)
-  | ["update", vb, o, n, qok, nm, s, dec, d1, d2] => (parseQ qok nm s dec).map (fun q => .update (bit vb) o n q d1 d2)
+  | ["update", vb, o, n, ns, qok, nm, s, dec, d1, d2] => (parseQ qok nm s dec).map (fun q => .update (bit vb) o n ns q d1 d2)
   | ["convert", t, d, live] => some (.convert t d (parseList live))
   | _ => none
 
 def step (st : St) (line : String) : St × String :=
   match fields line with
-  | ["reset"] => ({ fresh with fixed := st.fixed }, "ok " ++ dump {} {} true)
+  | ["reset"] => ({ fresh with fixed := st.fixed, genStrict := st.genStrict }, "ok " ++ dump {} {} true)
+  | ["genmode", m] => ({ st with genStrict := m == "strict" }, "ok")
   | ["mode", m] => ({ st with fixed := m != "orig" }, "ok")
   | ["push"] => ({ st with stack := st.cur :: st.stack }, "ok")
   | ["pop"] =>
     match st.stack with
     | [] => (st, "bad-op")
     | r :: rest => ({ st with cur := r, stack := rest }, "ok")
+  | ["env", "wipe"] =>                                            -- the chain restarts from an export: empty registry
+    let r : Reg String := { st.cur with pairs := [], byErc := [], byDen := [] }
+    ({ st with cur := r }, "ok " ++ dump st.cur r false)
   | "env" :: _ => (st, "ok " ++ dump st.cur st.cur false)        -- harness-only environment change (deploy / kill a contract)
   | ["genvalidate", ps] =>
     match (if ps = "-" then [] else ps.splitOn ";").mapM parsePair with
     | none => (st, "bad-op")
     | some l =>
+      if st.genStrict then (st, if validateGenesisStrict l then "ok" else "err") else
       match validateGenesis l with
       | none => (st, "panic")
       | some b => (st, if b then "ok" else "err")
